@@ -128,19 +128,27 @@ CHECKS['C13'] = dict(
 CHECKS['C14'] = dict(
    category='exploration',
    text='Proved on the real rexpy.py: PRNGState.__init__ saves the global state and then seeds iff a seed is given (0 included), with that seed; '
-        'restore puts the saved state back iff one was saved. The rest is bounded only (labelled): a two-run (hyper)property over the whole pipeline that no per-function contract here carries. Runtime '
+        'restore puts the saved state back iff one was saved; Extractor.extract is proved (typestate, every callee abstracted as returning anything or raising, loop cut at an invariant) to save the generator state exactly once, '
+        'restore it exactly once however it ends - normal return, early return, exception - and to draw random samples only in between. The rest is bounded only (labelled): a two-run (hyper)property over the whole pipeline that no per-function contract here carries. Runtime '
         'contracts: same expressions for every permutation (<= 4 examples: all 24), list vs frequency dict, repeated example, repeated '
         'call; with a seed: reproducible, independent of the global PRNG, random.getstate() unchanged - over word multisets x options x '
         'Size settings that force sampling x seeds.',
-   note=_REX_NOTE + ' That extract() brackets its sampling between PRNGState() and restore() is checked at run time only (random.getstate() before/after).',
+   note=_REX_NOTE + ' The corresponding bracket inside Extractor.__init__ (first sample) is checked at run time only (random.getstate() before/after).',
    technique='bounded runtime contracts (relational checks over permutations, input forms and PRNG state)',
    design_ref='DESIGN.md 5 C14')
 CHECKS['C18'] = dict(
-   category='exploration',
-   text='Bounded only (labelled): coverage() equals an independent count of matching examples (with and without repeats), n_examples equals '
+   category='other',
+   text='Mixed. Proved on the real rexpy.py: rex_coverage returns, for each (anchored) expression, exactly the number of stored examples - '
+        'weighted by their frequencies, or counted once each under dedup - that re.match of the expression compiled with UNICODE|DOTALL accepts '
+        '(example lists of any length; expression lists of length 0..3; re.match uninterpreted); Examples.update sets the distinct count to the number of '
+        'stored strings and the example count to the sum of the stored frequencies; Extractor.coverage / incremental_coverage / full_incremental_coverage '
+        'hand exactly the result expressions, the stored examples and the dedup flag to the module functions, and n_examples returns the stored count. '
+        'Bounded (labelled; complete for its finite family): every match matrix of <= 3 expressions x 3 examples x frequencies {1,3} x dedup through rex_coverage and the incremental functions. '
+        'Bounded (labelled): coverage() equals an independent count of matching examples (with and without repeats), n_examples equals '
         'the number supplied, incremental coverage is non-increasing, sums to the total and credits each example to exactly one expression '
         '(replayed greedily) - over the C03 drivers with repeats.',
-   note=_REX_NOTE, technique='bounded runtime contracts against an independent count',
+   note=_REX_NOTE + ' The greedy loop of matrices2incremental_coverage and Extractor.clean (which builds the stored frequencies) are not under deductive contracts.',
+   technique='contract-based deductive verification of the coverage counters (shared partial-sum functions) + exhaustive match matrices + bounded runtime contracts against an independent count',
    design_ref='DESIGN.md 5 C18')
 
 CHECKS['C09'] = dict(
@@ -224,12 +232,14 @@ CHECKS['C11'] = dict(
    design_ref='DESIGN.md 5 C11')
 CHECKS['C12'] = dict(
    category='exploration',
-   text='Bounded only (labelled): for each command of the C11 family, after generation every single change of behaviour (stdout '
+   text='Proved on the real gentest.py: TestGenerator.test_name never returns a name that is already taken (the set of taken names is arbitrary) and records '
+        'what it returns, so no generated test method silently replaces another (one output going unchecked). Otherwise bounded (labelled): '
+        'for each command of the C11 family, after generation every single change of behaviour (stdout '
         'altered at the end / start / one character / truncated, stderr appended, exit status changed, output file content changed, '
         'output file deleted) is applied and the generated script re-run in a subprocess: it must fail, the failure must be reported by '
         'the test for that stream / status, the other tests must keep passing, and the unchanged command must keep passing.',
    note='The property is about the behaviour of the emitted script; the exactness of the comparisons it calls is covered by C04/C15.',
-   technique='bounded runtime contracts (generate, perturb, re-run)',
+   technique='contract-based deductive verification of test-name uniqueness + bounded runtime contracts (generate, perturb, re-run)',
    design_ref='DESIGN.md 5 C12')
 
 NA_REASON = 'check under construction in this session (see DESIGN.md 8, build order)'
